@@ -594,6 +594,9 @@ func (d *emuCurveDesc) inputClass(c *emuCase) (scalars []string, all string) {
 	if len(keep) == 0 {
 		keep = []string{"any-P"}
 	}
+	if len(scalars) == 0 {
+		return scalars, "points:" + strings.Join(ps, "+")
+	}
 	return scalars, strings.Join(scalars, "+") + "/" + strings.Join(keep, "+")
 }
 
